@@ -381,9 +381,9 @@ static int Record(const vh::Args& args) {
 
 int main(int argc, char** argv) {
   vh::Args args(argc, argv);
-  if (args.has("record")) { InstallHook(); return vh::RunRecorder(args.get("trace"), args.get("out"), [&]() { return Record(args); }, 240); }
+  if (args.has("record")) { InstallHook(); return vh::RunRecorder(args.get("trace"), args.get("out"), [&]() { return Record(args); }, 1800); }
   { std::stringstream ss(args.get("props")); std::string p; while (std::getline(ss, p, ',')) if (!p.empty()) g_props.insert(p); }
   InstallHook();
-  vh::IsoOptions iso; iso.faultProperty = "C09"; iso.batch = 1000; iso.watchdogSeconds = 20;
+  vh::IsoOptions iso; iso.faultProperty = "C09"; iso.batch = 1000; iso.watchdogSeconds = 90;
   return vh::Main(argc, argv, Handle, true, iso);
 }
